@@ -222,14 +222,13 @@ mod imp {
    // ---------------------------------------------------------------------------------------------------------------
    // ternary provider r(K, T, T): one binary eqrel per key (eqrel_ternary.rs), same protocol
    use ascent_byods_rels::eqrel_ternary::{EqRel2IndCommonWithReverse, ToEqRel2Ind0, ToEqRel2Ind0_1, ToEqRel2Ind1, ToEqRel2Ind1_2, ToEqRel2IndFull, ToEqRel2IndNone};
-   const K3: usize = 2;
    const D3: usize = 3;
    type Rows = BTreeSet<(u8, u8, u8)>;
    type Tern = EqRel2IndCommonWithReverse<u8, u8>;
 
-   fn closure3(p: &Rows) -> Rows {
+   fn closure3(p: &Rows, k3: usize) -> Rows {
       let mut out = Rows::new();
-      for k in 0..K3 as u8 {
+      for k in 0..k3 as u8 {
          let mut r = [[false; D3]; D3];
          for &(kk, a, b) in p {
             if kk == k {
@@ -275,7 +274,7 @@ mod imp {
       ind12_get: Vec<(u8, u8, u8)>,
       ind12_all: Vec<(u8, u8, u8)>,
    }
-   fn read3(c: &Tern) -> Views3 {
+   fn read3(c: &Tern, k3: usize) -> Views3 {
       let to_full = ToEqRel2IndFull::<u8, u8>::default();
       let to_none = ToEqRel2IndNone::<u8, u8>::default();
       let to_0 = ToEqRel2Ind0::<u8, u8>::default();
@@ -303,7 +302,7 @@ mod imp {
          ind12_get: vec![],
          ind12_all: vec![],
       };
-      for k in 0..K3 as u8 {
+      for k in 0..k3 as u8 {
          if let Some(it) = i0.index_get(&(k,)) {
             for (a, b) in it {
                v.ind0_get.push((k, *a, *b));
@@ -389,12 +388,12 @@ mod imp {
    fn covering(v: &[(u8, u8, u8)], want: &Rows, within: &Rows) -> bool { set3(v).is_superset(want) && set3(v).is_subset(within) }
 
    /// codes: 0 stop, 1..=18 derive (k, a, b) = ((c-1)/9, ((c-1)%9)/3, (c-1)%3), 19 end of iteration, 20 end of stratum
-   pub fn protocol3<const L: usize>(s: &mut dyn Src, r: &mut Report) {
+   pub fn protocol3<const L: usize, const K3: usize>(s: &mut dyn Src, r: &mut Report) {
       let mut ops = vec![];
       let mut stopped = false;
       for _ in 0..L {
          let c = s.byte();
-         s.require(c <= 20 && (!stopped || c == 0));
+         s.require((c as usize) <= 9 * K3 + 2 && (!stopped || c == 0));
          if c == 0 {
             stopped = true;
          } else {
@@ -404,12 +403,13 @@ mod imp {
       if s.rejected() {
          return;
       }
-      ops.push(20);
-      r.note(format!("codes (1 + 9k + 3a + b = derive (k, a, b); 19 = end of iteration; 20 = end of stratum) = {:?}", ops));
+      let (it_end, st_end) = ((9 * K3 + 1) as u8, (9 * K3 + 2) as u8);
+      ops.push(st_end);
+      r.note(format!("codes (1 + 9k + 3a + b = derive (k, a, b); then end of iteration, end of stratum) = {:?}", ops));
       let mut evs = vec![];
       for &c in &ops {
-         if c == 20 {
-            evs.extend([19, 19, 20]);
+         if c == st_end {
+            evs.extend([it_end, it_end, st_end]);
          } else {
             evs.push(c);
          }
@@ -423,37 +423,37 @@ mod imp {
       let mut merged = Rows::new();
       let mut new_this_iter = Rows::new();
       for &c in &evs {
-         if c == 20 {
+         if c == st_end {
             delta = std::mem::take(&mut total);
             new = Tern::default();
-            let known = closure3(&merged);
-            let d = read3(&delta);
+            let known = closure3(&merged, K3);
+            let d = read3(&delta, K3);
             chk!(r, "ternary_stratum_start_delta_is_everything_known", d.full_contains == known && exact(&d.none_get, &known));
             continue;
          }
-         if c <= 18 {
+         if c < it_end {
             let c = c - 1;
             let row = (c / 9, (c % 9) / 3, c % 3);
             offered.insert(row);
             let in_total = to_full.to_rel_index(&total).contains_key(&row);
             let in_delta = to_full.to_rel_index(&delta).contains_key(&row);
-            chk!(r, "ternary_guard_total_or_delta_knows_exactly_the_merged_closure", (in_total || in_delta) == closure3(&merged).contains(&row));
+            chk!(r, "ternary_guard_total_or_delta_knows_exactly_the_merged_closure", (in_total || in_delta) == closure3(&merged, K3).contains(&row));
             if !in_total && !in_delta {
-               let already = closure3(&new_this_iter).contains(&row);
+               let already = closure3(&new_this_iter, K3).contains(&row);
                let fresh = to_full_w.to_rel_index_write(&mut new).insert_if_not_present(&row, ());
                chk!(r, "ternary_insert_if_not_present_reports_new_information_exactly", fresh == !already);
                new_this_iter.insert(row);
             }
          } else {
             RelIndexMerge::merge_delta_to_total_new_to_delta(&mut new, &mut delta, &mut total);
-            let c_prev = closure3(&merged);
+            let c_prev = closure3(&merged, K3);
             merged = offered.clone();
-            let c_now = closure3(&merged);
+            let c_now = closure3(&merged, K3);
             new_this_iter.clear();
             let added: Rows = c_now.difference(&c_prev).cloned().collect();
-            let t = read3(&total);
-            let d = read3(&delta);
-            let n = read3(&new);
+            let t = read3(&total, K3);
+            let d = read3(&delta, K3);
+            let n = read3(&new, K3);
             chk!(r, "ternary_total_full_index_is_the_previous_closure", t.full_contains == c_prev && t.full_get == c_prev && exact(&t.full_all, &c_prev));
             chk!(r, "ternary_total_no_index_is_the_previous_closure", exact(&t.none_get, &c_prev) && exact(&t.none_all, &c_prev));
             chk!(r, "ternary_total_index_0_is_the_previous_closure", exact(&t.ind0_get, &c_prev) && exact(&t.ind0_all, &c_prev));
@@ -475,8 +475,8 @@ mod imp {
          }
       }
       // the relation as the next stratum sees it (everything sits in `delta` after the final restart)
-      let d = read3(&delta);
-      let c_all = closure3(&offered);
+      let d = read3(&delta, K3);
+      let c_all = closure3(&offered, K3);
       chk!(r, "ternary_fixpoint_is_the_per_key_equivalence_closure", d.full_contains == c_all && exact(&d.none_get, &c_all) && covering(&d.ind0_get, &c_all, &c_all)
          && covering(&d.ind01_get, &c_all, &c_all) && covering(&d.ind1_get, &c_all, &c_all) && covering(&d.ind12_get, &c_all, &c_all));
    }
@@ -560,6 +560,6 @@ pub use imp::{direct, protocol, protocol3};
 #[cfg(kani)]
 pub fn protocol<const L: usize>(_s: &mut dyn Src, _r: &mut Report) {}
 #[cfg(kani)]
-pub fn protocol3<const L: usize>(_s: &mut dyn Src, _r: &mut Report) {}
+pub fn protocol3<const L: usize, const K3: usize>(_s: &mut dyn Src, _r: &mut Report) {}
 #[cfg(kani)]
 pub fn direct<const L: usize>(_s: &mut dyn Src, _r: &mut Report) {}
